@@ -22,7 +22,7 @@ CFG = {
     "search_tier": "quick",
     "search_rounds": 1,
     "exhaustive": True,
-    "rule": "fields = kind, input string (hex code points), extra. Exhaustive: every string of length <= 3 over the 14-symbol alphabet "
+    "rule": "fields = kind, input string (hex code points), extra. Long strings: valid identifiers of 63..66, 127..130, 255..258, 511..514, 1023..1026, 2047..2050 bytes (also multi-byte layer names) and the same with one invalid character at the start/middle/end; digit strings of 19..21, 39..40, 255..257 digits in versions/API versions. Exhaustive: every string of length <= 3 over the 14-symbol alphabet "
             "{a Z 0 1 9 . _ - / + space LF e-acute NUL} for each of the 6 kinds (layer, process, bpid, execd, version, api), two paths each "
             "(parse/TryFrom, toml::from_str of a one-field struct) with Display, Serialize and re-parse of the Display in the observation; "
             "thorough adds every string of length 3..5 over the same alphabet (bulk cases: one per 3-character prefix, 211 strings each, "
